@@ -14,38 +14,18 @@ const fetT = "gossip/itemsfetcher.Fetcher"
 
 func init() {
 	register("C16", "other", "T3 PostDominates with predicate refinement (timer invariant), provenance (requester/ids), T7 Pairing (forget)",
-		"Decides the structural invariant behind 'does not forget pending items': whenever the announce set can be non-empty when a handler of the fetcher loop finishes, the fetch timer has been re-armed — processNotification reaches rescheduleFetch after adding an announcement unless a test built only from 'the fetcher was idle at entry' and 'the announce set is non-empty now' fails; the timer case always ends with rescheduleFetch; rescheduleFetch resets the timer whenever the announce set is non-empty. Also: the requester invoked for an id is the fetchItems callback of an announcement stored for that id, and requested ids come only from OnlyInterested results; received / no-longer-interesting ids are forgotten, forgetting removes the announcements, and the eviction callback removes the fetching entry. The time bounds themselves (timing) are not decided.",
+		"Decides, on the inlined views of processNotification, loop and rescheduleFetch (helpers of the package expanded, so the facts do not depend on how the handlers are cut into functions), the structural invariant behind 'does not forget pending items': whenever the announce set can be non-empty when a handler of the fetcher loop finishes, the fetch timer has been re-armed — processNotification reaches rescheduleFetch after adding an announcement unless a test built only from 'the fetcher was idle at entry' and 'the announce set is non-empty now' fails; the timer case always ends with rescheduleFetch; rescheduleFetch resets the timer whenever the announce set is non-empty. Also: the requester invoked for an id is the fetchItems callback of an announcement stored for that id, and requested ids come only from OnlyInterested results; received / no-longer-interesting ids are forgotten, forgetting removes the announcements, and the eviction callback removes the fetching entry. The time bounds themselves (timing) are not decided.",
 		[]string{"time.Timer contract (Reset re-arms)", "callbacks OnlyInterested/Suspend are opaque", "the fetcher state is confined to the loop goroutine"},
 		runC16)
-}
-
-// allDisjunctsMatch: on edge (b,succ) the branch condition's truth is a disjunction of alternatives;
-// the edge is acceptable if every alternative contains a fact accepted by match.
-func allDisjunctsMatch(f *core.FuncInfo, match func(core.Fact) bool) func(*cfg.Block, int) bool {
-	return func(b *cfg.Block, s int) bool {
-		cond := f.BranchCond(b)
-		if cond == nil || s > 1 {
-			return false
-		}
-		for _, alt := range core.Disjuncts(cond, s == 0) {
-			ok := false
-			for _, ft := range alt {
-				if match(ft) {
-					ok = true
-				}
-			}
-			if !ok {
-				return false
-			}
-		}
-		return true
-	}
 }
 
 func runC16(c *core.Ctx) {
 	p := c.P
 	annF := fetT + ".announces"
 	fetchingF := fetT + ".fetching"
+	pnName, rfName, loopName, fhName := fetT+".processNotification", fetT+".rescheduleFetch", fetT+".loop", fetT+".forgetHash"
+	fetchItemsF := "gossip/itemsfetcher.announceData.fetchItems"
+	cbInterested := "gossip/itemsfetcher.Callback.OnlyInterested"
 
 	isAnnLen := func(f *core.FuncInfo, e ast.Expr) bool {
 		call := isCallTo(f, e, "utils/wlru.Cache.Len")
@@ -59,239 +39,252 @@ func runC16(c *core.Ctx) {
 		call := isCallTo(f, e, "builtin.len")
 		return call != nil && len(call.Args) == 1 && fieldNameOf(f, call.Args[0]) == fetchingF
 	}
+	onAnnounces := func(n *c14Node, name string) bool { return n.CS.Name == name && n.recvField() == annF }
+	emptyNow := func(ft c14Fact) bool {
+		f := ft.Fr.Fn
+		return c16SizeFact(f, ft.Fact, func(e ast.Expr) bool { return c16AnnLenNow(f, e, annF) }, true)
+	}
 
 	c.Clause("C16.timer", func() {
-		pn := c.Fn(fetT + ".processNotification")
-		adds := pn.CallsMatching(func(cs *core.CallSite) bool {
-			return cs.Name == "utils/wlru.Cache.Add" && fieldNameOf(pn, cs.Recv()) == annF
-		})
+		pn := c.Fn(pnName)
+		rf := c.Fn(rfName)
+		lp := c.Fn(loopName)
+		isRF := func(g *core.FuncInfo) bool { return g == rf }
+		// processNotification with its helpers expanded; rescheduleFetch stays one opaque step
+		w := c14NewView(pn, 3, isRF)
+		adds := w.calls(func(n *c14Node) bool { return onAnnounces(n, "utils/wlru.Cache.Add") })
 		c.ExpectAtLeast("announces.Add sites in processNotification", len(adds), 1)
-		res := core.Points(pn.CallsTo(fetT + ".rescheduleFetch"))
+		res := w.callsTo(rfName)
 		c.Need(len(res) >= 1, "processNotification calls rescheduleFetch")
+		c.Need(w.reachable(adds...) && w.reachable(w.Exit), "the stores and the return of processNotification are reachable in the inlined view")
 		// "idle at entry" variables: defined before any Add as "X is zero" with X = announces.Len() or
 		// len(fetching), in any spelling (X == 0, 0 == X, X < 1, !(X > 0) …)
-		idle := map[*types.Var]bool{}
-		for _, a := range assignments(pn) {
-			v := varOf(pn, a.LHS)
-			if v == nil || a.RHS == nil {
-				continue
-			}
-			def := core.Fact{Expr: a.RHS, Truth: true}
-			if !(c16SizeFact(pn, def, func(e ast.Expr) bool { return isAnnLen(pn, e) }, true) ||
-				c16SizeFact(pn, def, func(e ast.Expr) bool { return isFetchingLen(pn, e) }, true)) {
-				continue
-			}
-			before := true
-			for _, ad := range adds {
-				if pn.CanReach(ad.Pt, a.Pt) {
-					before = false
+		var idle []c14Val
+		for _, fr := range w.Frames {
+			f := fr.Fn
+			for _, a := range assignments(f) {
+				v := varOf(f, a.LHS)
+				if v == nil || a.RHS == nil || len(assignsToVar(f, v)) != 1 {
+					continue
+				}
+				def := core.Fact{Expr: a.RHS, Truth: true}
+				if !(c16SizeFact(f, def, func(e ast.Expr) bool { return isAnnLen(f, e) }, true) ||
+					c16SizeFact(f, def, func(e ast.Expr) bool { return isFetchingLen(f, e) }, true)) {
+					continue
+				}
+				before := true
+				for _, st := range w.stmts(fr, a.Pt) {
+					for _, ad := range adds {
+						if w.canReach(ad, st) {
+							before = false
+						}
+					}
+				}
+				if before {
+					idle = append(idle, c14Val{Fr: fr, V: v})
 				}
 			}
-			if before && len(assignsToVar(pn, v)) == 1 {
-				idle[v] = true
-			}
 		}
-		allowed := func(ft core.Fact) bool {
-			// not idle at entry
-			if cm, ok := core.NormCmp(ft); ok && cm.R == nil && cm.Op == token.NEQ && idle[varOf(pn, cm.L)] {
-				return true
+		notIdle := c14BoolFact(func(v c14Val) bool {
+			for _, i := range idle {
+				if v.same(i) {
+					return true
+				}
 			}
-			// announce set empty now
-			return c16SizeFact(pn, ft, func(e ast.Expr) bool { return c16AnnLenNow(pn, e, annF) }, true)
-		}
+			return false
+		}, false)
+		// not idle at entry, or the announce set is empty now
+		allowed := w.edgesWith(func(ft c14Fact) bool { return notIdle(ft) || emptyNow(ft) })
 		for _, ad := range adds {
-			path, found := core.PathQuery{F: pn, From: ad.Pt, FromAfter: true, Avoid: core.PointSet(res...), AvoidEdge: allDisjunctsMatch(pn, allowed), TargetExit: true}.Find()
-			c.Check(!found, "processNotification|announce => timer armed", "T3 PostDominates (refined)", ad.Pos(),
+			path, found := w.find(c14Query{From: []*c14Node{ad}, After: true, Target: c14IsExit, Avoid: c14NodeSet(res...), AvoidEdge: allowed})
+			c.Check(!found, "processNotification|announce => timer armed", "T3 PostDominates (refined)", ad.pos(),
 				"after an announcement is stored, rescheduleFetch is skipped only when the fetcher was not idle at entry (timer already armed) or the announce set is empty",
-				"an announcement can be stored while the fetch timer stays unarmed (e.g. when the test depends on the fetching set, which stays empty while suspended): the item is never requested; path "+pn.DescribePath(path))
+				"an announcement can be stored while the fetch timer stays unarmed (e.g. when the test depends on the fetching set, which stays empty while suspended): the item is never requested; path "+w.describe(path))
 		}
 		// the timer case of loop ends with rescheduleFetch
-		lp := c.Fn(fetT + ".loop")
+		wl := c14NewView(lp, 3, isRF)
 		var timerBody *cfg.Block
+		var timerExpr ast.Expr
 		for _, b := range lp.CFG().Blocks {
 			if b.Kind == cfg.KindSelectCaseBody && b.Live {
 				cc, _ := b.Stmt.(*ast.CommClause)
 				if cc != nil && cc.Comm != nil {
-					isTimer := false
 					ast.Inspect(cc.Comm, func(n ast.Node) bool {
 						if sel, ok := n.(*ast.SelectorExpr); ok {
 							if v, ok := lp.Info().ObjectOf(sel.Sel).(*types.Var); ok && p.ObjName(v) == "time.Timer.C" {
-								isTimer = true
+								timerBody, timerExpr = b, sel.X
 							}
 						}
 						return true
 					})
-					if isTimer {
-						timerBody = b
-					}
 				}
 			}
 		}
-		c.Need(timerBody != nil, "loop has a select case on the fetch timer channel")
-		lres := core.Points(lp.CallsTo(fetT + ".rescheduleFetch"))
-		path, found := core.PathQuery{F: lp, From: blockEntry(timerBody), Avoid: core.PointSet(lres...), Target: func(pt core.Point) bool {
-			return pt.B.Kind == cfg.KindSelectDone || (pt.B.Kind == cfg.KindForBody && pt.I == 0 && pt.B != timerBody)
-		}, AvoidEdge: func(b *cfg.Block, s int) bool { return false }}.Find()
-		// blocks may be empty: search on block level as well
-		if !found {
-			seen := map[*cfg.Block]bool{}
-			var dfs func(b *cfg.Block) bool
-			avoid := core.PointSet(lres...)
-			dfs = func(b *cfg.Block) bool {
-				if seen[b] {
-					return false
-				}
-				seen[b] = true
-				for i := range b.Nodes {
-					if avoid(core.Point{B: b, I: i}) {
-						return false
-					}
-				}
-				if b.Kind == cfg.KindSelectDone {
-					return true
-				}
-				for _, s := range b.Succs {
-					if dfs(s) {
-						return true
-					}
-				}
-				return false
-			}
-			found = dfs(timerBody)
-		}
-		c.Check(!found, "loop|timer case ends with rescheduleFetch", "T3 PostDominates", posOf(blockEntry(timerBody)), "every path through the timer case reaches rescheduleFetch before the next select", "the timer case can finish without re-arming the timer: "+lp.DescribePath(path))
+		c.Need(timerBody != nil && wl.Root.blocks[timerBody] != nil, "loop has a select case on the fetch timer channel")
+		lres := wl.callsTo(rfName)
+		_, ends := wl.find(c14Query{From: []*c14Node{wl.Root.blocks[timerBody]}, Target: c16CaseOver(wl, timerBody)})
+		c.Need(ends, "the end of the timer case is reachable in the inlined view")
+		path, found := wl.find(c14Query{From: []*c14Node{wl.Root.blocks[timerBody]}, Avoid: c14NodeSet(lres...), Target: c16CaseOver(wl, timerBody)})
+		c.Check(!found, "loop|timer case ends with rescheduleFetch", "T3 PostDominates", posOf(blockEntry(timerBody)), "every path through the timer case reaches rescheduleFetch before the next select", "the timer case can finish without re-arming the timer: "+wl.describe(path))
 		// rescheduleFetch resets the timer unless the announce set is empty
-		rf := c.Fn(fetT + ".rescheduleFetch")
-		resets := core.Points(rf.CallsTo("time.Timer.Reset"))
-		c.Need(len(resets) >= 1, "rescheduleFetch calls Timer.Reset")
-		emptyNow := func(ft core.Fact) bool {
-			return c16SizeFact(rf, ft, func(e ast.Expr) bool { return c16AnnLenNow(rf, e, annF) }, true)
-		}
-		path, found = core.PathQuery{F: rf, From: rf.Entry(), Avoid: core.PointSet(resets...), AvoidEdge: allDisjunctsMatch(rf, emptyNow), TargetExit: true}.Find()
-		c.Check(!found, "rescheduleFetch|resets the timer when announcements are pending", "T3 PostDominates (refined)", rf.Pos(), "every return passes Timer.Reset or the announce-set-empty edge", "rescheduleFetch can return without arming the timer although announcements are pending: "+rf.DescribePath(path))
-		// the timer passed around is the loop's timer
-		okT := false
-		for _, cs := range lp.CallsTo(fetT+".processNotification", fetT+".rescheduleFetch") {
-			last := cs.Call.Args[len(cs.Call.Args)-1]
-			if v := varOf(lp, last); v != nil {
-				for _, a := range assignsToVar(lp, v) {
-					if a.RHS != nil && isCallTo(lp, a.RHS, "time.NewTimer") != nil {
-						okT = true
-					}
+		wr := c14NewView(rf, 3, nil)
+		resets := wr.callsTo("time.Timer.Reset")
+		c.Need(len(resets) >= 1 && wr.reachable(wr.Exit), "rescheduleFetch calls Timer.Reset and returns")
+		path, found = wr.find(c14Query{From: []*c14Node{wr.Entry}, Target: c14IsExit, Avoid: c14NodeSet(resets...), AvoidEdge: wr.edgesWith(emptyNow)})
+		c.Check(!found, "rescheduleFetch|resets the timer when announcements are pending", "T3 PostDominates (refined)", rf.Pos(), "every return passes Timer.Reset or the announce-set-empty edge", "rescheduleFetch can return without arming the timer although announcements are pending: "+wr.describe(path))
+		// the timer that the handlers re-arm is the one the loop waits on (and it is the loop's own timer)
+		wf := c14NewView(lp, 4, nil)
+		timer := wf.Root.val(timerExpr)
+		okT := timer.V != nil
+		if okT {
+			okT = false
+			for _, a := range assignsToVar(timer.Fr.Fn, timer.V) {
+				if a.RHS != nil && isCallTo(timer.Fr.Fn, a.RHS, "time.NewTimer") != nil {
+					okT = true
 				}
 			}
 		}
-		c.Check(okT, "loop|handlers get the loop's timer", "provenance", lp.Pos(), "the timer waited on is the one handed to processNotification/rescheduleFetch", "the handlers re-arm a different timer than the one the loop waits on")
+		all := wf.callsTo("time.Timer.Reset")
+		if len(all) == 0 {
+			okT = false
+		}
+		for _, rn := range all {
+			if !rn.Fr.val(rn.CS.Recv()).same(timer) {
+				okT = false
+			}
+		}
+		c.Check(okT, "loop|handlers get the loop's timer", "provenance", lp.Pos(), "every Timer.Reset that the loop's handlers perform is on the timer created by the loop and waited on in its select", "the handlers re-arm a different timer than the one the loop waits on")
 	})
 
 	c.Clause("C16.peer", func() {
-		pn := c.Fn(fetT + ".processNotification")
-		notif := pn.Param(0)
-		// ids are filtered by OnlyInterested before the loop
-		var filt []assignment
-		for _, a := range assignments(pn) {
-			root, path := fieldPath(pn, a.LHS)
-			if len(path) == 1 && path[0] == "gossip/itemsfetcher.announcesBatch.ids" && varOf(pn, root) == notif && a.RHS != nil && isCallTo(pn, a.RHS, "gossip/itemsfetcher.Callback.OnlyInterested") != nil {
-				filt = append(filt, a)
+		pn := c.Fn(pnName)
+		lp := c.Fn(loopName)
+		w := c14NewView(pn, 3, nil)
+		notif := c14Val{Fr: w.Root, V: pn.Param(0)}
+		c.Need(notif.V != nil, "processNotification(notification, …)")
+		// The ids that are stored (and from them requested) are the result of OnlyInterested: the iteration
+		// that stores the announcements runs over the filtered batch, which is either notification.ids after
+		// `notification.ids = OnlyInterested(…)` or a local that only ever holds an OnlyInterested result.
+		idsF := "gossip/itemsfetcher.announcesBatch.ids"
+		var fieldFilt []*c14Node
+		nFieldFilt := 0
+		for _, fr := range w.Frames {
+			for _, a := range assignments(fr.Fn) {
+				root, path := fr.fieldPath(a.LHS)
+				if len(path) == 1 && path[0] == idsF && root.same(notif) && a.RHS != nil && isCallTo(fr.Fn, a.RHS, cbInterested) != nil {
+					nFieldFilt++
+					fieldFilt = append(fieldFilt, w.stmts(fr, a.Pt)...)
+				}
 			}
 		}
-		c.Check(len(filt) == 1, "processNotification|ids filtered by OnlyInterested", "provenance", pn.Pos(), "notification.ids = OnlyInterested(notification.ids)", "the announced ids are not filtered by OnlyInterested")
-		// the enqueued closure calls notification.fetchItems with ids collected from notification.ids
-		lits := pn.Lits()
-		okReq := false
-		for _, l := range lits {
-			for _, cs := range l.Calls() {
-				v, ok := cs.Callee.(*types.Var)
-				if !ok {
-					continue
+		var filt []*c14Node // where the filtering happens
+		filtered := func(fr *c14Frame, coll ast.Expr, head *c14Node) bool {
+			if val := fr.val(coll); val.V != nil {
+				as := assignsToVar(val.Fr.Fn, val.V)
+				ok := len(as) > 0
+				var at []*c14Node
+				for _, a := range as {
+					if a.RHS == nil || isCallTo(val.Fr.Fn, a.RHS, cbInterested) == nil {
+						ok = false
+					}
+					at = append(at, w.stmts(val.Fr, a.Pt)...)
 				}
-				as := assignsToVar(pn, v)
-				if len(as) == 1 && as[0].RHS != nil {
-					root, path := fieldPath(pn, as[0].RHS)
-					if len(path) >= 1 && path[len(path)-1] == "gossip/itemsfetcher.announceData.fetchItems" && varOf(pn, root) == notif {
-						okReq = true
-						if len(filt) == 1 {
-							if ok, _ := pn.MustPassBefore([]core.Point{filt[0].Pt}, as[0].Pt); !ok {
-								okReq = false
+				if ok {
+					filt = append(filt, at...)
+					return true
+				}
+			}
+			root, path := fr.fieldPath(coll)
+			if len(path) == 1 && path[0] == idsF && root.same(notif) && nFieldFilt == 1 && head != nil {
+				if ok, _ := w.mustPassBefore(fieldFilt, head); ok {
+					filt = append(filt, fieldFilt...)
+					return true
+				}
+			}
+			return false
+		}
+		stores := w.calls(func(n *c14Node) bool { return onAnnounces(n, "utils/wlru.Cache.Add") })
+		okFilt := len(stores) > 0
+		for _, ad := range stores {
+			// the innermost loop around the store: in its own function, or around the call that leads to it
+			var it *core.Iteration
+			var itFr *c14Frame
+			for fr, pos := ad.Fr, ad.CS.Pos(); fr != nil; pos, fr = fr.Site.Pos(), fr.Parent {
+				if loop := enclosingLoop(fr.Fn, pos); loop != nil {
+					if i, ok := core.IterationOf(fr.Fn, loop, nil); ok {
+						it, itFr = i, fr
+					}
+					break
+				}
+				if fr.Site == nil {
+					break
+				}
+			}
+			if it == nil || it.Coll == nil || it.Head == nil || !filtered(itFr, it.Coll, itFr.blocks[it.Head]) {
+				okFilt = false
+			}
+		}
+		c.Check(okFilt, "processNotification|ids filtered by OnlyInterested", "provenance", pn.Pos(), "announcements are stored for the ids of the batch that OnlyInterested returned", "the announced ids are not filtered by OnlyInterested")
+		nFilt := 0
+		if okFilt && len(filt) > 0 {
+			nFilt = 1
+		}
+		// the enqueued closure calls notification.fetchItems (after the filtering); the closure may be built
+		// in a helper that receives the requester as an argument
+		okReq, nReq := false, 0
+		for _, fr := range w.Frames {
+			for _, l := range allLits(fr.Fn) {
+				for _, cs := range l.Calls() {
+					if _, isVar := cs.Callee.(*types.Var); !isVar {
+						continue
+					}
+					root, path := fr.fieldPath(cs.Call.Fun)
+					if len(path) < 1 || path[len(path)-1] != fetchItemsF {
+						continue
+					}
+					nReq++
+					good := root.same(notif) && nFilt == 1
+					if pt, ok := fr.Fn.PointOf(l.Lit); ok && good {
+						created := w.stmts(fr, pt)
+						if len(created) == 0 {
+							good = false
+						}
+						for _, cr := range created {
+							if o, _ := w.mustPassBefore(filt, cr); !o {
+								good = false
 							}
 						}
+					} else {
+						good = false
+					}
+					if nReq == 1 {
+						okReq = good
+					} else {
+						okReq = okReq && good
 					}
 				}
 			}
 		}
 		c.Check(okReq, "processNotification|requester is the announcing peer's", "provenance", pn.Pos(), "the first request for an id goes through the fetchItems of the notification that announced it, after filtering", "the first request is not sent through the announcing peer's requester")
-		// re-fetch: requester comes from an announcement returned by getAnnounces(id) for the same id
-		lp := c.Fn(fetT + ".loop")
-		okRe := false
-		var annVar, annsVar *types.Var
-		for _, a := range assignments(lp) {
-			ix, ok := ast.Unparen(a.LHS).(*ast.IndexExpr)
-			if !ok || a.RHS == nil {
-				continue
+		// re-fetch: requester comes from an announcement returned by getAnnounces(id) for the same id; the
+		// code may live in the loop itself or in a helper that the loop runs
+		wf := c14NewView(lp, 4, nil)
+		okRe, okInt := false, false
+		for g := range wf.funcs() {
+			if c16RefetchFromAnnouncer(g) {
+				okRe = true
 			}
-			if mv := varOf(lp, ix.X); mv != nil {
-				root, path := fieldPath(lp, a.RHS)
-				if len(path) == 1 && path[0] == "gossip/itemsfetcher.announceData.fetchItems" {
-					annVar = varOf(lp, root)
-					// key is announce.peer
-					r2, p2 := fieldPath(lp, ix.Index)
-					if len(p2) == 1 && p2[0] == "gossip/itemsfetcher.announceData.peer" && varOf(lp, r2) == annVar && annVar != nil {
-						okRe = true
-					}
-				}
-			}
-		}
-		if okRe {
-			okRe = false
-			for _, a := range assignsToVar(lp, annVar) {
-				if ix, ok := ast.Unparen(a.RHS).(*ast.IndexExpr); ok && a.RHS != nil {
-					annsVar = varOf(lp, ix.X)
-				}
-			}
-			if annsVar != nil {
-				for _, a := range assignsToVar(lp, annsVar) {
-					if call := isCallTo(lp, a.RHS, fetT+".getAnnounces"); call != nil && a.RHS != nil {
-						// same id as the one queued
-						idv := varOf(lp, call.Args[0])
-						for _, b := range assignments(lp) {
-							if ix, ok := ast.Unparen(b.LHS).(*ast.IndexExpr); ok && b.RHS != nil {
-								if ap := isCallTo(lp, b.RHS, "builtin.append"); ap != nil && len(ap.Args) == 2 && varOf(lp, ap.Args[1]) == idv && idv != nil {
-									r2, p2 := fieldPath(lp, ix.Index)
-									if len(p2) == 1 && varOf(lp, r2) == annVar {
-										okRe = true
-									}
-								}
-							}
-						}
-					}
-				}
+			if c16RefetchInterested(g, cbInterested) {
+				okInt = true
 			}
 		}
 		c.Check(okRe, "loop|re-fetch asks a peer that announced the item", "provenance", lp.Pos(), "the re-fetch requester and peer come from one announcement of getAnnounces(id) for the id being queued", "a re-fetch can be sent to a peer that did not announce the item")
 		// re-fetched ids come from OnlyInterested
-		okInt := false
-		lp.InspectOwn(func(n ast.Node) bool {
-			rs, ok := n.(*ast.RangeStmt)
-			if !ok {
-				return true
-			}
-			if v := varOf(lp, rs.X); v != nil {
-				for _, a := range assignsToVar(lp, v) {
-					if a.RHS != nil && isCallTo(lp, a.RHS, "gossip/itemsfetcher.Callback.OnlyInterested") != nil {
-						// the loop body contains the getAnnounces call
-						if mentionsCall(lp, rs.Body, fetT+".getAnnounces") {
-							okInt = true
-						}
-					}
-				}
-			}
-			return true
-		})
 		c.Check(okInt, "loop|re-fetch only interesting ids", "provenance", lp.Pos(), "the re-fetch loop ranges over the result of OnlyInterested", "ids are re-fetched without having been reported interesting")
 	})
 
 	c.Clause("C16.forget", func() {
-		fh := c.Fn(fetT + ".forgetHash")
+		fh := c.Fn(fhName)
 		rm := fh.CallsMatching(func(cs *core.CallSite) bool {
 			return cs.Name == "utils/wlru.Cache.Remove" && fieldNameOf(fh, cs.Recv()) == annF
 		})
@@ -311,52 +304,71 @@ func runC16(c *core.Ctx) {
 		}
 		c.Check(okEv, "eviction drops the fetching entry", "T7 Pairing", nw.Pos(), "the announce cache's eviction callback deletes fetching[id] (fetching ⊆ announces)", "entries can stay in the fetching map after their announcements are gone")
 		// received items are forgotten
-		lp := c.Fn(fetT + ".loop")
-		nForget := 0
-		okRecv := false
-		lp.InspectOwn(func(n ast.Node) bool {
-			cc, ok := n.(*ast.CommClause)
-			if !ok || cc.Comm == nil {
-				return true
+		lp := c.Fn(loopName)
+		// the loop and the helpers it runs
+		wf := c14NewView(lp, 4, nil)
+		forgets := wf.callsTo(fhName)
+		var recvBody *cfg.Block
+		var batchVar *types.Var
+		for _, b := range lp.CFG().Blocks {
+			cc, _ := b.Stmt.(*ast.CommClause)
+			if b.Kind != cfg.KindSelectCaseBody || !b.Live || cc == nil || cc.Comm == nil {
+				continue
 			}
-			recv := false
 			ast.Inspect(cc.Comm, func(m ast.Node) bool {
 				if sel, ok := m.(*ast.SelectorExpr); ok && fieldNameOf(lp, sel) == fetT+".receivedItems" {
-					recv = true
+					recvBody = b
+					if as, ok := cc.Comm.(*ast.AssignStmt); ok && len(as.Lhs) >= 1 {
+						batchVar = varOf(lp, as.Lhs[0])
+					}
 				}
 				return true
 			})
-			if recv {
-				for _, st := range cc.Body {
-					rs, ok := st.(*ast.RangeStmt)
-					if !ok {
-						continue
-					}
-					// every id of the received batch reaches forgetHash(id): no iteration skips it
-					var fh []core.Point
-					for _, cs := range lp.CallsTo(fetT + ".forgetHash") {
-						if rs.Body.Pos() <= cs.Pos() && cs.Pos() < rs.Body.End() && len(cs.Call.Args) == 1 && varOf(lp, cs.Call.Args[0]) == varOf(lp, rs.Value) {
-							fh = append(fh, cs.Pt)
-						}
-					}
-					head, _ := lp.LoopOf(rs)
-					_, complete := loopDone(lp, rs)
-					if len(fh) > 0 && head != nil && complete {
-						_, skip := core.PathQuery{F: lp, From: blockEntry(head.Succs[0]), Avoid: core.PointSet(fh...), TargetBlock: func(b *cfg.Block) bool { return b == head }}.Find()
-						okRecv = !skip
-					}
-				}
+		}
+		c.Need(recvBody != nil && batchVar != nil && wf.Root.blocks[recvBody] != nil, "loop has a select case receiving a batch from receivedItems")
+		// every path through the case runs an iteration over the received batch (range or counted loop, in
+		// the case itself or in a helper that gets the batch) whose every round passes forgetHash(element)
+		okRecv := false
+		batch := c14Val{Fr: wf.Root, V: batchVar}
+		for _, fn := range forgets {
+			g := fn.Fr.Fn
+			loop := enclosingLoop(g, fn.CS.Pos())
+			if loop == nil || len(fn.CS.Call.Args) != 1 {
+				continue
 			}
-			return true
-		})
-		c.Check(okRecv, "received ids are forgotten", "T7 Pairing", lp.Pos(), "the receivedItems case calls forgetHash for every id", "received items stay scheduled")
-		nForget = len(lp.CallsTo(fetT + ".forgetHash"))
-		c.ExpectAtLeast("forgetHash sites in loop", nForget, 3)
-		// not interesting => forgotten: a forgetHash call guarded by !notArrivedMap[id]-shape (membership in the interesting set is false)
+			resolve := func(e ast.Expr) ast.Expr { return resolveLocal(g, e) }
+			it, ok := core.IterationOf(g, loop, resolve)
+			if !ok || !it.Complete || !it.FromZero || it.Coll == nil || it.Head == nil || fn.Fr.blocks[it.Head] == nil {
+				continue
+			}
+			// the collection is the received batch (the variable, or its defining receive expression when
+			// the iteration view has looked through the local)
+			coll := fn.Fr.val(it.Coll)
+			if d := singleDef(lp, batchVar); !coll.same(batch) && !(d != nil && coll.Fr == wf.Root && coll.E == ast.Unparen(d)) {
+				continue
+			}
+			if !it.IsElem(fn.CS.Call.Args[0], resolve) {
+				continue
+			}
+			if every, _ := it.EveryIterationPasses([]core.Point{fn.CS.Pt}, false); !every {
+				continue
+			}
+			if _, skip := wf.find(c14Query{From: []*c14Node{wf.Root.blocks[recvBody]}, Target: c16CaseOver(wf, recvBody), Avoid: c14NodeSet(fn.Fr.blocks[it.Head])}); !skip {
+				okRecv = true
+			}
+		}
+		c.Check(okRecv, "received ids are forgotten", "T7 Pairing", posOf(blockEntry(recvBody)), "the receivedItems case calls forgetHash for every id", "received items stay scheduled")
+		sites := map[*core.CallSite]bool{}
+		for _, n := range forgets {
+			sites[n.CS] = true
+		}
+		c.ExpectAtLeast("forgetHash sites in loop", len(sites), 3)
+		// not interesting => forgotten: a forgetHash call reachable only on the edge where membership of the
+		// id in a set (map lookup) is false
 		okNI := false
-		for _, cs := range lp.CallsTo(fetT + ".forgetHash") {
-			if ok, _ := lp.GuardedBy(cs.Pt, func(ft core.Fact) bool {
-				cm, k := core.NormCmp(ft)
+		for _, fn := range forgets {
+			if ok, _ := wf.guarded(fn, func(ft c14Fact) bool {
+				cm, k := core.NormCmp(ft.Fact)
 				if !k || cm.R != nil || cm.Op != token.NEQ {
 					return false
 				}
@@ -364,7 +376,11 @@ func runC16(c *core.Ctx) {
 				if !isIx {
 					return false
 				}
-				_, isMap := lp.Info().TypeOf(ix.X).Underlying().(*types.Map)
+				t := ft.Fr.Fn.Info().TypeOf(ix.X)
+				if t == nil {
+					return false
+				}
+				_, isMap := t.Underlying().(*types.Map)
 				return isMap
 			}); ok {
 				okNI = true
@@ -372,6 +388,111 @@ func runC16(c *core.Ctx) {
 		}
 		c.Check(okNI, "no-longer-interesting ids are forgotten", "T7 Pairing", lp.Pos(), "ids missing from the interesting set are passed to forgetHash", "ids that stopped being interesting are kept and re-requested")
 	})
+}
+
+// c16CaseOver: in the view w of a function whose body is `for { select { … } }`, the nodes at which the
+// select case starting with block body is over: control is behind the select statement, back at the
+// enclosing loop, or out of the function.
+func c16CaseOver(w *c14View, body *cfg.Block) func(*c14Node) bool {
+	outer := enclosingLoop(w.Root.Fn, body.Stmt.Pos())
+	return func(n *c14Node) bool {
+		if n.Kind == c14Exit {
+			return true
+		}
+		if n.Kind != c14Block || n.Fr != w.Root || n.Block == body {
+			return false
+		}
+		switch n.Block.Kind {
+		case cfg.KindSelectDone:
+			// the select statement that has this case (not one nested in the case's body)
+			return n.Block.Stmt != nil && n.Block.Stmt.Pos() <= body.Stmt.Pos() && body.Stmt.End() <= n.Block.Stmt.End()
+		case cfg.KindForBody, cfg.KindForLoop, cfg.KindForPost:
+			return outer != nil && n.Block.Stmt == outer
+		}
+		return false
+	}
+}
+
+// c16RefetchFromAnnouncer: g stores a requester into a per-peer map as M[a.peer] = a.fetchItems and queues
+// the id as R[a.peer] = append(R[a.peer], id), where a is an element of the result of getAnnounces(id)
+// for that same id.
+func c16RefetchFromAnnouncer(g *core.FuncInfo) bool {
+	var annVar, annsVar *types.Var
+	ok := false
+	for _, a := range assignments(g) {
+		ix, isIx := ast.Unparen(a.LHS).(*ast.IndexExpr)
+		if !isIx || a.RHS == nil {
+			continue
+		}
+		if mv := varOf(g, ix.X); mv != nil {
+			root, path := fieldPath(g, a.RHS)
+			if len(path) == 1 && path[0] == "gossip/itemsfetcher.announceData.fetchItems" {
+				annVar = varOf(g, root)
+				// key is announce.peer
+				r2, p2 := fieldPath(g, ix.Index)
+				if len(p2) == 1 && p2[0] == "gossip/itemsfetcher.announceData.peer" && varOf(g, r2) == annVar && annVar != nil {
+					ok = true
+				}
+			}
+		}
+	}
+	if !ok {
+		return false
+	}
+	for _, a := range assignsToVar(g, annVar) {
+		if a.RHS == nil {
+			continue
+		}
+		if ix, isIx := ast.Unparen(a.RHS).(*ast.IndexExpr); isIx {
+			annsVar = varOf(g, ix.X)
+		}
+	}
+	if annsVar == nil {
+		return false
+	}
+	for _, a := range assignsToVar(g, annsVar) {
+		if a.RHS == nil {
+			continue
+		}
+		call := isCallTo(g, a.RHS, fetT+".getAnnounces")
+		if call == nil || len(call.Args) != 1 {
+			continue
+		}
+		// same id as the one queued
+		idv := varOf(g, call.Args[0])
+		for _, b := range assignments(g) {
+			if ix, isIx := ast.Unparen(b.LHS).(*ast.IndexExpr); isIx && b.RHS != nil {
+				if ap := isCallTo(g, b.RHS, "builtin.append"); ap != nil && len(ap.Args) == 2 && varOf(g, ap.Args[1]) == idv && idv != nil {
+					r2, p2 := fieldPath(g, ix.Index)
+					if len(p2) == 1 && varOf(g, r2) == annVar {
+						return true
+					}
+				}
+			}
+		}
+	}
+	return false
+}
+
+// c16RefetchInterested: g ranges over a result of OnlyInterested and looks the announcements of each
+// such id up in the body of that loop.
+func c16RefetchInterested(g *core.FuncInfo, cbInterested string) bool {
+	ok := false
+	g.InspectOwn(func(n ast.Node) bool {
+		rs, isRange := n.(*ast.RangeStmt)
+		if !isRange {
+			return true
+		}
+		if v := varOf(g, rs.X); v != nil {
+			for _, a := range assignsToVar(g, v) {
+				if a.RHS != nil && isCallTo(g, a.RHS, cbInterested) != nil && mentionsCall(g, rs.Body, fetT+".getAnnounces") {
+					ok = true
+				}
+			}
+		}
+		return true
+	})
+	return ok
 }
 
 // c16SizeFact: does the fact say that the non-negative integer quantity recognised by atom is zero
